@@ -188,13 +188,14 @@ def judge(family, case, rec):
         rec.exception_violation("C20:factory-exception", family, case, "noise.%s%r raised" % (kind, params), e)
         return
     # shape
-    for n in (0, 1, 7):
+    for n in (0, 1, 7, np.int64(4), np.int32(3), np.uint8(6), np.intp(0)):       # n as the numpy integers that len()/shape arithmetic yields
         try:
             x = f(n)
         except Exception as e:
-            rec.exception_violation("C20:%s-call-exception" % kind, family, case, "callable raised for n=%d" % n, e)
+            rec.exception_violation("C20:%s-call-exception" % kind, family, case, "callable raised for n=%r" % (n,), e)
             return
-        if not isinstance(x, np.ndarray) or x.shape != (n,):
+        rec.count("n-form:" + type(n).__name__)
+        if not isinstance(x, np.ndarray) or x.shape != (int(n),):
             rec.violation("C20:%s-shape" % kind, family, case, "n=%d gives %r of shape %r" % (n, type(x).__name__, getattr(x, "shape", None)))
             return
     if kind == "zero":
